@@ -182,8 +182,8 @@ m("computation-effects-before-value", "labrea/computation.py",
   "        value = self.evaluatable.evaluate(options)\n\n        if not _EFFECTS_DISABLED(options):\n            self.effect.transform(value, options)\n\n        return value",
   "        if not _EFFECTS_DISABLED(options):\n            self.effect.transform(None, options)\n        value = self.evaluatable.evaluate(options)\n\n        return value", ["C02"])
 m("apply-func-before-source", "labrea/types.py",
-  "        value = self.evaluatable(options)\n        return self.func(options)(value)",
-  "        func = self.func(options)\n        value = self.evaluatable(options)\n        return func(value)", ["C06"])
+  "        value = self.evaluatable.evaluate(options)\n        return self.func(options)(value)",
+  "        func = self.func(options)\n        value = self.evaluatable.evaluate(options)\n        return func(value)", ["C06"])
 m("iter-reversed", "labrea/iterable.py",
   "        return (evaluatable.evaluate(options) for evaluatable in self.evaluatables)",
   "        return (evaluatable.evaluate(options) for evaluatable in reversed(self.evaluatables))", ["C05"])
